@@ -63,13 +63,23 @@ func (sc SweepCase) toCase() Case {
 	return c
 }
 
+var existCache = map[string][]bool{}
+
 func sizeExists(kind string, size int) bool {
-	_, ok := buildWire(Msg{Kind: kind, Label: "a", Size: size})
-	return ok
+	e, ok := existCache[kind]
+	if !ok {
+		e = make([]bool, defn.MaxNDNPacketSize+1)
+		for s := 1; s <= defn.MaxNDNPacketSize; s++ {
+			_, e[s] = buildWire(Msg{Kind: kind, Label: "a", Size: s})
+		}
+		existCache[kind] = e
+	}
+	return e[size]
 }
 
-func sweepCases(thorough bool) []SweepCase {
-	var out []SweepCase
+// sweepCases enumerates the grid and returns the cases of this shard (index mod shards)
+// and the size of the whole grid.
+func sweepCases(thorough bool, shard, shards int) (out []SweepCase, total int) {
 	mtus, opts := quickMTUs, quickOpts
 	if thorough {
 		mtus, opts = sweepMTUs, sweepOpts()
@@ -98,11 +108,14 @@ func sweepCases(thorough bool) []SweepCase {
 				if !sizeExists(kind, size) {
 					continue
 				}
-				out = append(out, SweepCase{MTU: mtu, Opt: opt, Size: size})
+				if total%shards == shard {
+					out = append(out, SweepCase{MTU: mtu, Opt: opt, Size: size})
+				}
+				total++
 			}
 		}
 	}
-	return out
+	return out, total
 }
 
 func execSweep(sc SweepCase) evid.Result { return execC10(sc.toCase()) }
@@ -112,24 +125,18 @@ const ruleC10Sweep = "finite sweep: one packet of every existing size 4..8800 (n
 func TestC10Sweep(t *testing.T) {
 	rec := evid.New("C10", "TestC10Sweep", ruleC10Sweep)
 	thorough := evid.Thorough()
-	cases := sweepCases(thorough)
 	shard, _ := strconv.Atoi(os.Getenv("VERIF_SHARD"))
 	shards, _ := strconv.Atoi(os.Getenv("VERIF_SHARDS"))
 	if shards < 1 {
 		shards = 1
 	}
-	var mine []SweepCase
-	for i, c := range cases {
-		if i%shards == shard {
-			mine = append(mine, c)
-		}
-	}
+	mine, total := sweepCases(thorough, shard, shards)
 	if thorough {
 		rec.SetExhaustive()
 		rec.Note(fmt.Sprintf("exhaustive for the grid: all %d existing packet sizes 4..8800 x MTUs %v x %d header-option combinations = %d sends (split over %d shards)",
-			len(cases)/(len(sweepMTUs)*len(sweepOpts())), sweepMTUs, len(sweepOpts()), len(cases), shards))
+			total/(len(sweepMTUs)*len(sweepOpts())), sweepMTUs, len(sweepOpts()), total, shards))
 	} else {
-		rec.Note(fmt.Sprintf("quick tier: coarse sub-grid (MTUs %v, %d option combinations, sizes near the one-frame boundary, near multiples of the fragment payload, <=60, 249..262, multiples of 211, >=8797): %d sends; not exhaustive", quickMTUs, len(quickOpts), len(cases)))
+		rec.Note(fmt.Sprintf("quick tier: coarse sub-grid (MTUs %v, %d option combinations, sizes near the one-frame boundary, near multiples of the fragment payload, <=60, 249..262, multiples of 211, >=8797): %d sends; not exhaustive", quickMTUs, len(quickOpts), total))
 	}
 	evid.Each(t, rec, mine, execSweep)
 }
